@@ -2,8 +2,9 @@
 
 An abstract key is a pattern - a sequence of runs, each run standing for one or more characters of one class:
 
-  'x'   bytes that are neither whitespace nor NUL (any such bytes; for bytes keys this includes bytes >= 0x80)
-  'u'   non-ASCII characters (str keys only; encode to several 'x' bytes under utf8, fail under ascii)
+  'x'   ASCII bytes / characters that are neither whitespace nor NUL
+  'h'   bytes >= 0x80 (bytes keys, and what non-ASCII characters encode to under utf8)
+  'u'   non-ASCII characters (str keys only; encode to several 'h' bytes under utf8, fail under ascii)
   ' ' '\\t' '\\n' '\\x0b' '\\x0c' '\\r'   the six bytes bytes.split() splits on
   '\\0'  NUL
 
@@ -150,6 +151,13 @@ class KeyEval:
 
     def run(self, env):
         self.env = dict(env)
+        # parameters beyond the ones the scenario binds take their declared defaults (what every caller that does not
+        # pass them gets; callers that do pass them are the business of C20.R5's validation-option rule)
+        for p_ in self.fn.params:
+            if p_.name not in self.env and p_.name != "self":
+                if not (p_.has_default and isinstance(p_.default, ast.Constant)):
+                    raise Unsupported("parameter %s of %s has no constant default" % (p_.name, self.fn.name))
+                self.env[p_.name] = p_.default.value
         try:
             self.block(self.fn.node.body)
         except _Return as r:
@@ -324,7 +332,7 @@ class KeyEval:
     def literal(self, v):
         tag = "bytes" if isinstance(v, bytes) else "str"
         chars = [chr(b) for b in v] if isinstance(v, bytes) else list(v)
-        pat = merge(c if c in SPECIAL else ("x" if ord(c) < 128 or tag == "bytes" else "u") for c in chars)
+        pat = merge(c if c in SPECIAL else ("x" if ord(c) < 128 else ("h" if tag == "bytes" else "u")) for c in chars)
         a = AStr(tag, pat, ("lit", len(v)), None)
         a.lit = v
         return a
@@ -461,9 +469,23 @@ class KeyEval:
                 cs = regex_charset(pattern)
                 special_hit = any(ord(s) in cs for s in target.pat if s in SPECIAL)
                 ordinary = cs - {ord(c) for c in SPECIAL}
-                ordinary_hit = bool(ordinary) and any(s in ("x", "u") for s in target.pat)
+                ordinary_hit = bool(ordinary) and any(s in ("x", "u", "h") for s in target.pat)
                 return True if (special_hit or ordinary_hit) else None
             v = self.ev(f.value)
+            if isinstance(v, tuple) and len(v) == 2 and v[0] == "modconst" and f.attr in ("isdisjoint", "intersection") and len(e.args) == 1:
+                # a module-level set of byte values tested against the key: which of the key's bytes are in it
+                codes = _byteset(self.module.assigns[v[1]])
+                target = self.ev(e.args[0])
+                if codes is None or not isinstance(target, AStr):
+                    raise Unsupported("method call %s at line %d" % (node_src(e), e.lineno))
+                self.flow.append(("member", target.tag, target.lenkind))
+                if target.tag != "bytes":
+                    hit = False  # the elements of a str are characters, never equal to an int
+                else:
+                    if (codes - {ord(c) for c in SPECIAL}) and any(s_ in ("x", "u", "h") for s_ in target.pat):
+                        raise Unsupported("%s holds ordinary byte values: membership of an unspecified byte at line %d" % (v[1], e.lineno))
+                    hit = any(ord(s_) in codes for s_ in target.pat if s_ in SPECIAL)
+                return (not hit) if f.attr == "isdisjoint" else hit
             if isinstance(v, AStr):
                 if f.attr == "encode":
                     if v.tag != "str":
@@ -480,7 +502,7 @@ class KeyEval:
                         raise Raised("UnicodeEncodeError", e)
                     if v.lenkind != "C":
                         raise Unsupported("encode of a non-key string at line %d" % e.lineno)
-                    return AStr("bytes", merge("x" if s == "u" else s for s in v.pat), "E", v.scen)
+                    return AStr("bytes", merge("h" if s == "u" else s for s in v.pat), "E", v.scen)
                 if f.attr == "split":
                     if e.args:
                         raise Unsupported("split with an explicit separator at line %d" % e.lineno)
@@ -498,10 +520,33 @@ class KeyEval:
                     if tuple(pat) == v.pat:
                         return v
                     return AStr(v.tag, tuple(pat), ("lit", max(0, v.length() - (len(v.pat) - len(pat)))), v.scen)
+                if f.attr == "isascii" and not e.args:
+                    self.flow.append(("isascii", v.tag, v.lenkind))
+                    return not any(s in ("u", "h") for s in v.pat)
                 if f.attr == "isspace" and not e.args:
                     return bool(v.pat) and all(s in WS for s in v.pat)
             raise Unsupported("method call %s at line %d" % (node_src(e), e.lineno))
         raise Unsupported("call %s at line %d" % (node_src(e), e.lineno))
+
+
+def _byteset(node):
+    """The set of byte values a module-level constant denotes: frozenset(b"..") / set(b"..") / b".." / a literal
+    collection of ints or one-byte literals; None if it is something else."""
+    if isinstance(node, ast.Call) and isinstance(node.func, ast.Name) and node.func.id in ("frozenset", "set", "tuple", "list", "bytes", "bytearray") and len(node.args) == 1 and not node.keywords:
+        return _byteset(node.args[0])
+    if isinstance(node, ast.Constant) and isinstance(node.value, bytes):
+        return set(node.value)
+    if isinstance(node, (ast.Tuple, ast.List, ast.Set)):
+        out = set()
+        for x in node.elts:
+            if isinstance(x, ast.Constant) and isinstance(x.value, int) and not isinstance(x.value, bool):
+                out.add(x.value)
+            elif isinstance(x, ast.Constant) and isinstance(x.value, bytes) and len(x.value) == 1:
+                out.add(x.value[0])
+            else:
+                return None
+        return out
+    return None
 
 
 class _Return(Exception):
